@@ -27,15 +27,25 @@ RULE = ('solution histories in polar form (magnitudes 2^k or k/4; phases k/odd t
         '(K) delays with NaN; (B) bandpasses with NaN runs incl. edges and all-NaN, data channels on/between/outside '
         'cal channels; (G) gain histories with the INVALID_GAIN placeholder, NaN solutions, 1 or several channels, '
         'optional per-dump target sequence (self-cal); (F) flux tables with valid/NaN/zero/negative fluxes, aliases, '
-        'overrides, disabled; (S) multi-part products through a real SensorCache with missing parts / missing '
-        'timestamps per part and several substreams; (E) the registered Calibration/Corrections sensors end to end; '
-        '(N) _normalise_cal_products exhaustively over <= 2 streams x all request forms.  A case is non-trivial when it '
-        'has >= 2 valid solutions (ci/B/G), >= 1 missing piece (S), or a non-empty request (N); distinct by its full '
-        'canonical input.')
+        'overrides, disabled; (D) the K / B correction array calc_correction delivers per dump, DATA channel and correlation '
+        'product for cal channelisations equal to / within 1 mHz of / offset from / narrower / coarser than the data (same '
+        'count) or of another count (1..12 channels); (S) multi-part products through a real SensorCache with missing parts / missing '
+        'timestamps per part and several substreams; (E) the registered Calibration/Corrections sensors end to end, the '
+        'calculator chosen by the model dispatch table; (N) _normalise_cal_products exhaustively over <= 2 streams x all '
+        'request forms; (P0) calc_correction on injected correction sensors: 1-7 products of 3 streams x 5 types, with '
+        'duplicates, each complete / absent / lacking some data inputs, skip on/off; (P1) requests (38 fixed forms + random '
+        'lists of streams / types / stream.type) on l1 / l2 streams registered by add_applycal_sensors from raw solutions '
+        '(1-2 substreams, a substream lacking a product, cal antennas a subset of the data antennas, missing spectral '
+        'attributes); (O) whole VisibilityDataV4 data sets: 0-2 cal and 0-2 imager streams (0-2 targets) in telstate, '
+        'archived or not, in any order, 6 requests each; (T) 2-3 data sets opened one after the other and kept open.  '
+        'B, G and E outputs are compared with the documented-decision spec and with the source-following model.  A case '
+        'is non-trivial when it has >= 2 valid solutions (ci/B/G), >= 1 missing piece (S), a non-empty request (N), or '
+        'some but not all expanded products present (P0/P1/O); distinct by its full canonical input.')
 ASSUMPTIONS = [
     'the ONE tolerance: finite complex outputs are compared with |impl - model| <= 8 * 2^-23 * |model| (8 ulp of '
     'complex64), needed because cos/sin/angle/sqrt are computed in floating point (cos(pi/2) is not 0); '
-    'NaN-ness, events, lengths and names are compared exactly',
+    'NaN-ness, events, lengths, names and product lists are compared exactly; the product of two corrections delivered '
+    'by calc_correction (stream D) is compared within 16 ulp of complex64',
     'consecutive valid phases never differ by exactly half a turn (mod 1): np.unwrap decides that case on rounding '
     'noise of np.angle',
     'complex64 solutions are generated with unwrapped phase excursions below 1 turn (np.angle of complex64 is float32, '
@@ -43,6 +53,11 @@ ASSUMPTIONS = [
     'magnitudes are non-zero and finite; frequencies / dump indices are exactly representable; timestamps of cal '
     'product samples coincide with dump mid-times (event placement itself is property C10)',
     'katpoint.Target(name | alias, radec, ...) exposes .name and .aliases',
+    'data sets have at least one data input; the self-cal substreams of one imager stream share antennas, polarisations '
+    'and channel count; solutions of different substreams have different timestamps',
+    'harness SensorCaches are built with their own virtual={} (the default argument of SensorCache is one shared dict); '
+    'every `opened` case first drops applycal templates left in visdatav4.VIRTUAL_SENSORS by earlier data sets (no-op '
+    'with the fix of finding C14-F1) - what data sets do to each other is checked by the two_sets stream',
 ]
 
 TOL = 8 * 2.0 ** -23
@@ -337,16 +352,18 @@ def check_bandpass(ctx, case):
         a[(slice(None),) + idx] = c_array(s, dtype)
         vals.append(ComparableArrayWrapper(a))
     sensor = make_cat(vals, events)
-    mo = ctx.model([[14, [3, [[wire_opv(v) for v in s] for s in segs], [q(f) for f in cf], [q(f) for f in df]]]])[0]
+    payload = [[[wire_opv(v) for v in s] for s in segs], [q(f) for f in cf], [q(f) for f in df]]
+    # model (follows the decisions regenerated from the source) and spec (documented decisions written out)
+    mo, sp = ctx.model([[14, [3] + payload], [14, [23] + payload]])
     with warnings.catch_warnings():
         warnings.simplefilter('ignore')
         out = calc_bandpass_correction(sensor, idx, np.array([float(f) for f in df]), np.array([float(f) for f in cf]))
     got = cat_segments(out)
-    bad = None
-    if list(out.events) != list(events) or len(got) != len(segs):
-        bad = ('events', list(map(int, out.events)), events, 0, 0)
-    else:
-        for k, ((st, v), m) in enumerate(zip(got, mo)):
+
+    def mismatch(ref):
+        if list(out.events) != list(events) or len(got) != len(segs):
+            return ('events', list(map(int, out.events)), events, 0, 0)
+        for k, ((st, v), m) in enumerate(zip(got, ref)):
             mv = [parse_opv(e) for e in m]
             if not same_array(v, mv):
                 j = [i for i, (z, e) in enumerate(zip(np.asarray(v).ravel(), mv)) if not same(z, e)]
@@ -356,12 +373,17 @@ def check_bandpass(ctx, case):
                 pos = ('allinvalid' if not valid_f else 'outside' if f is not None and (f < valid_f[0] or f > valid_f[-1])
                        else 'atvalid' if f in valid_f else 'inside')
                 nanflip = j < len(mv) and j < v.size and ((mv[j] is None) != bool(np.isnan(np.asarray(v).ravel()[j])))
-                bad = ('nan_structure' if nanflip else 'value', show(v), show_m(mv), pos, k)
-                break
+                return ('nan_structure' if nanflip else 'value', show(v), show_m(mv), pos, k)
+        return None
+    bad = mismatch(sp)
     if bad:
         ctx.disagree('kind=bandpass;at=%s;symptom=%s' % (bad[3], bad[0]), case, bad[1], bad[2],
                      'bandpass correction is not the reciprocal of the interpolation across invalid channels '
-                     '(INVALID outside the outermost valid channels)')
+                     '(INVALID outside the outermost valid channels)', spec=bad[2])
+    tie = mismatch(mo)
+    if tie:
+        ctx.disagree('kind=bandpass;at=%s;symptom=%s' % (tie[3], tie[0]), case, tie[1], tie[2],
+                     'calc_bandpass_correction differs from its model', kind='tie')
     ctx.traces_validated += 1
     nv = max(sum(v is not None for v in s) for s in segs)
     ctx.note_case(('B', repr(case)), nontrivial=nv >= 2, sample=case if len(cf) <= 3 else None)
@@ -467,17 +489,24 @@ def check_gain(ctx, case):
     if tg is not None:
         ev = [0] + [d for d in range(1, case['N']) if tg[d] != tg[d - 1]]
         targets = CategoricalData([tg[e] for e in ev], ev + [case['N']])
-    mo = ctx.model([[14, [4, case['N'], wire_sols(case['sols'], case['events']), [] if tg is None else [tg]]]])[0]
+    payload = [case['N'], wire_sols(case['sols'], case['events']), [] if tg is None else [tg]]
+    mo, sp = ctx.model([[14, [4] + payload], [14, [24] + payload]])
     mo = [[parse_opv(e) for e in row] for row in mo]
+    sp = [[parse_opv(e) for e in row] for row in sp]
     with warnings.catch_warnings():
         warnings.simplefilter('ignore')
         out = calc_gain_correction(sensor, tuple(case['index']), targets)
-    pos, sym = gain_symptom(case, out, mo)
+    pos, sym = gain_symptom(case, out, sp)
     if sym:
         ctx.disagree('kind=gain;selfcal=%s;at=%s;symptom=%s' % (tg is not None, pos, sym), case,
                      show(out), show_m(itertools.chain(*mo)),
                      'gain correction is not the reciprocal of the time interpolation of the valid '
-                     '(same-target) solutions, held before the first / after the last')
+                     '(same-target) solutions, held before the first / after the last',
+                     spec=show_m(itertools.chain(*sp)))
+    pos, sym = gain_symptom(case, out, mo)
+    if sym:
+        ctx.disagree('kind=gain;selfcal=%s;at=%s;symptom=%s' % (tg is not None, pos, sym), case,
+                     show(out), show_m(itertools.chain(*mo)), 'calc_gain_correction differs from its model', kind='tie')
     ctx.traces_validated += 1
     nv = sum(1 for s in case['sols'] if s is not None and any(v is not None for v in s))
     ctx.note_case(('G', repr(case)), nontrivial=nv >= 2, sample=case if case['N'] <= 5 else None)
@@ -676,7 +705,7 @@ def build_cache(case):
                 vals = [block([None if v is None else (Fr(v[0]), Fr(v[1])) for v in s[1]], idx, dtype, 3 + int(pn))
                         for s in samples]
             cache['%s_product_%s%s' % (sname, case['ptype'], pn if case['n_parts'] else '')] = raw_sensor(ts, vals)
-    sc = SensorCache(cache, timestamps=np.arange(N, dtype=float), dump_period=1., props=SENSOR_PROPS)
+    sc = SensorCache(cache, timestamps=np.arange(N, dtype=float), dump_period=1., props=SENSOR_PROPS, virtual={})
     nchan = case['cal_chans']
     attrs = dict(ATTRS0, center_freq=float(case['cal_centre']), bandwidth=float(nchan * case['cal_width']),
                  n_chans=nchan)
@@ -697,24 +726,16 @@ def check_stitch(ctx, case):
 
     def wire_samples(samples):
         return [[q(s[0]), [wire_opv(None if v is None else (Fr(v[0]), Fr(v[1]))) for v in s[1]]] for s in samples]
-    # model: per part, merge the substreams; then stitch the parts
+    # model: per part every substream's samples (or absent); the rule "a substream lacking the part makes the part
+    # absent", the merge of the substreams and the stitching are all in the model (stitch_substreams)
     if nparts:
-        merged = []
-        for pn in range(nparts):
-            streams = [wire_samples(sub[str(pn)]) for sub in subs if str(pn) in sub]
-            if len([1 for sub in subs]) == 1:
-                merged.append(streams[0] if streams else [])
-            else:
-                if len(streams) != len(subs):
-                    merged.append(None)          # a substream lacks this part: KeyError -> the whole part is absent
-                else:
-                    merged.append(ctx.model([[14, [7, streams]]])[0])
-        merged = [m if m is not None else [] for m in merged]
-        mo = ctx.model([[14, [6, merged]]])[0]
+        parts = [[[wire_samples(sub[str(pn)])] if str(pn) in sub else [] for sub in subs] for pn in range(nparts)]
+        mo = ctx.model([[14, [61, parts]]])[0]
         mo = None if not mo else mo[0]
     else:
         streams = [wire_samples(sub['0']) for sub in subs]
         mo = streams[0] if len(streams) == 1 else ctx.model([[14, [7, streams]]])[0]
+    crashed = None
     try:
         getter = sc.get('Calibration/Products/cal/' + case['ptype'], extract=False)
         sd = getter.get()
@@ -722,8 +743,13 @@ def check_stitch(ctx, case):
                for t, v in zip(sd.timestamp, sd.value)]
     except KeyError:
         got = None
+    except Exception as e:       # noqa: BLE001 - a crash on an in-domain input is reported with the input
+        got = None
+        crashed = 'raises:' + type(e).__name__
     bad = None
-    if (got is None) != (mo is None):
+    if crashed:
+        bad = crashed
+    elif (got is None) != (mo is None):
         bad = 'keyerror'
     elif got is not None:
         if [t for t, _ in got] != [fq(s[0]) for s in mo]:
@@ -821,7 +847,12 @@ def check_end_to_end(ctx, case):
         out = sc.get('Calibration/Corrections/cal/%s/%s' % (ptype, inp))
     cf = [Fr(float(f)) for f in cal_freqs]
     bad = None
-    if ptype == 'K':
+    # which calculator: the model's dispatch table (regenerated from calc_correction_per_input), not the harness
+    kind, skind = ctx.model([[142, [0, codes(ptype)]], [142, [10, codes(ptype)]]])
+    if kind != skind:
+        ctx.disagree('kind=e2e;type=%s;symptom=dispatch_table' % ptype, case, kind, kind,
+                     'the calculator chosen for this product type is not the documented one', spec=skind)
+    if kind == [0]:
         mo = ctx.model([[14, [2, [[] if s[0] is None else [q(Fr(s[0]))] for s in sols], [q(f) for f in data_freqs]]]])[0]
         got = cat_segments(out)
         for (st, v), m in zip(got, mo):
@@ -829,8 +860,8 @@ def check_end_to_end(ctx, case):
                 bad = 'value'
         if [e for e, _ in got] != events:
             bad = 'events'
-    elif ptype == 'B':
-        mo = ctx.model([[14, [3, [[wire_opv(None if v is None else (Fr(v[0]), Fr(v[1]))) for v in s] for s in sols],
+    elif kind == [1]:
+        mo = ctx.model([[14, [23, [[wire_opv(None if v is None else (Fr(v[0]), Fr(v[1]))) for v in s] for s in sols],
                               [q(f) for f in cf], [q(f) for f in data_freqs]]]])[0]
         got = cat_segments(out)
         for (st, v), m in zip(got, mo):
@@ -838,20 +869,24 @@ def check_end_to_end(ctx, case):
                 bad = 'value'
         if [e for e, _ in got] != events:
             bad = 'events'
-    else:
-        wsols = sols
-        if ptype == 'G':
-            fcase = dict(case, measured=case['measured'] or [])
-            mo = ctx.model([wire_flux(fcase, sols, events)])[0]
-            wsols = [None if not m[1] else [None if not e else [str(fq(e[0][0])), str(fq(e[0][1]))] for e in m[1][0]]
-                     for m in mo]
-        tg = None if ptype == 'G' else per_dump
-        mo = ctx.model([[14, [4, N, wire_sols(wsols, events), [] if tg is None else [tg]]]])[0]
-        mo = [[parse_opv(e) for e in row] for row in mo]
-        g = dict(N=N, events=events, sols=wsols, targets=tg)
-        pos, sym = gain_symptom(g, out, mo)
+    elif kind and kind[0] == 2:
+        # flux calibration (or not) and per-target interpolation (or not) are decided by the model from the type
+        fcase = dict(case, measured=case['measured'] or [])
+        w = wire_flux(fcase, sols, events)
+        mo, sp = ctx.model([[142, [1, codes(ptype), N] + w[1][1:] + [per_dump]],
+                            [142, [11, codes(ptype), N] + w[1][1:] + [per_dump]]])
+        mo = [[parse_opv(e) for e in row] for row in mo[0]]
+        sp = [[parse_opv(e) for e in row] for row in sp[0]]
+        g = dict(N=N, events=events, sols=sols, targets=per_dump if skind[2] else None)
+        pos, sym = gain_symptom(g, out, sp)
         if sym:
             bad = '%s@%s' % (sym, pos)
+        else:
+            pos, sym = gain_symptom(g, out, mo)
+            if sym:
+                bad = 'model:%s@%s' % (sym, pos)
+    else:
+        bad = 'no_calculator_in_model'
     if bad:
         ctx.disagree('kind=e2e;type=%s;symptom=%s' % (ptype, bad), case, show(np.asarray(out[:]) if ptype not in 'KB'
                      else [v for _, v in cat_segments(out)][0]), None,
@@ -913,8 +948,9 @@ def wire_req(r):
     return [0, codes(r)] if isinstance(r, str) else [1, [codes(x) for x in r]]
 
 
-def check_normalise(ctx, req, streams):
-    mo = ctx.model([[14, [8, wire_req(req), [codes(s) for s in streams]]]])[0]
+def check_normalise(ctx, req, streams, mo=None):
+    if mo is None:
+        mo = ctx.model([[14, [8, wire_req(req), [codes(s) for s in streams]]]])[0]
     mo = None if not mo else ([''.join(chr(c) for c in s) for s in mo[0]], bool(mo[1]))
     # the real caller passes dict keys
     keys = dict.fromkeys(streams).keys()
@@ -997,11 +1033,812 @@ def normalise_cases(ctx):
 STREAM_SETS = [[], ['l1'], ['l2'], ['l1', 'l2']]
 
 
+# ------------------------------------------------------------------ (P) which products get APPLIED
+
+def spec_select(products, inputs, avail, skip):
+    """documented: with skipping every requested product that is in the data set (a correction sensor for EVERY data
+    input) is applied once, in request order, the others are skipped; without, all must be there (KeyError)"""
+    ok = [p for p in products if all(i in avail.get(p, ()) for i in inputs)]
+    if not skip and len(ok) != len(products):
+        return 'KeyError'
+    return list(dict.fromkeys(ok))
+
+
+def missing_shape(products, ok):
+    """where the unavailable products stand in the (expanded) list"""
+    miss = [k for k, p in enumerate(products) if p not in ok]
+    if not miss:
+        return 'none'
+    if len(miss) == len(products):
+        return 'all'
+    last_ok = max(k for k, p in enumerate(products) if p in ok)
+    return 'before_present' if miss[0] < last_ok else 'at_end'
+
+
+def run_calc_correction(cache, inputs, products, all_cal_freqs, skip, nchan=2, ndump=2):
+    from katdal.applycal import calc_correction
+    corrprods = [(a, b) for i, a in enumerate(inputs) for b in inputs[i:]]
+    chunks = ((ndump,), (nchan,), (len(corrprods),))
+    try:
+        final, corr = calc_correction(chunks, cache, corrprods, list(products), np.arange(nchan, dtype=float) + 100.0,
+                                      all_cal_freqs, skip)
+    except KeyError:
+        return 'KeyError', None, corrprods
+    except Exception as e:       # noqa: BLE001 - anything else on an in-domain input is reported with the input
+        return 'raises:' + type(e).__name__, None, corrprods
+    return list(final), corr, corrprods
+
+
+def check_select(ctx, case):
+    """calc_correction's product loop on a SensorCache holding injected correction sensors (one scalar per dump)"""
+    products, inputs, skip = case['products'], case['inputs'], case['skip']
+    avail = {p: list(l) for p, l in case['avail']}
+    T = 2
+    cache = SensorCache({}, np.arange(T, dtype=float), 1.0, virtual={})
+    value = {}
+    for k, (p, l) in enumerate(case['avail']):
+        s, t = p.rsplit('.', 1)
+        value[p] = 2.0 ** ((k % 3) - 1)
+        for inp in l:
+            cache['Calibration/Corrections/%s/%s/%s' % (s, t, inp)] = np.full(T, value[p], np.complex64)
+    freqs = {p.rsplit('.', 1)[0]: np.arange(2, dtype=float) + 100.0 for p in avail}
+    got, corr, corrprods = run_calc_correction(cache, inputs, products, freqs, skip)
+    mo = ctx.model([[141, [0, int(skip), [codes(p) for p in products], [codes(i) for i in inputs],
+                           [[codes(p), [codes(i) for i in l]] for p, l in case['avail']]]]])[0]
+    mo = 'KeyError' if not mo else [''.join(chr(c) for c in s) for s in mo[0]]
+    want = spec_select(products, inputs, avail, skip)
+    ok = [p for p in products if all(i in avail.get(p, ()) for i in inputs)]
+    shape = 'skip=%s;missing=%s' % (skip, missing_shape(products, ok))
+    if got != want:
+        ctx.disagree('kind=select;%s;symptom=%s' % (shape, symptom(got, want)),
+                     case, got, mo, 'calc_correction does not apply exactly the requested products that are in the '
+                     'data set (skipping) / does not insist on all of them (strict)', spec=want)
+    if got != mo:
+        ctx.disagree('kind=select;%s;symptom=%s' % (shape, symptom(got, mo)),
+                     case, got, mo, 'calc_correction final_cal_products differ from the model', kind='tie')
+    if isinstance(got, list):
+        # the correction array must be made of exactly the products named: prod_p v_p^2
+        exp = 1.0
+        for p in got:
+            exp *= value[p] ** 2
+        try:
+            arr = None if corr is None else corr.compute(scheduler='synchronous')
+        except Exception as e:       # noqa: BLE001
+            arr = 'raises:' + type(e).__name__
+        if (corr is None) != (not got) or (corr is not None and (isinstance(arr, str) or not np.all(
+                arr == np.complex64(exp)))):
+            ctx.disagree('kind=select;%s;symptom=array_not_of_named_products' % shape, case,
+                         arr if arr is None or isinstance(arr, str) else show(arr), exp,
+                         'the corrections array is not the product of the corrections of final_cal_products')
+    ctx.traces_validated += 1
+    ctx.note_case(('P0', repr(case)), nontrivial=0 < len(ok) < len(products), sample=case if len(products) <= 3 else None)
+    ctx.count('select:skip=%s' % skip)
+    ctx.count('select:missing=' + missing_shape(products, ok))
+
+
+PSTREAMS = ['l1', 'l2', 'l3']
+PINPUTS = ['m000h', 'm000v', 'm001h', 'm001v', 'm002h']
+
+
+def gen_select(rng):
+    ninp = rng.randint(1, 4)
+    inputs = sorted(rng.sample(PINPUTS, ninp))
+    pool = [s + '.' + t for s in PSTREAMS for t in TYPES]
+    n = rng.randint(1, 7)
+    products = [rng.choice(pool) for _ in range(n)] if rng.random() < 0.3 else rng.sample(pool, n)
+    r = rng.random()
+    avail = []
+    for p in dict.fromkeys(products + rng.sample(pool, 2)):
+        q = rng.random()
+        if r < 0.15 or q < 0.55:
+            l = list(inputs)                                    # complete
+        elif q < 0.75:
+            l = []                                              # absent altogether
+        else:
+            l = [i for i in inputs if rng.random() < 0.6]       # some inputs lack a solution
+            if rng.random() < 0.5:
+                l = l + ['m009h']
+        avail.append([p, l])
+    return dict(kind='select', products=products, inputs=inputs, avail=avail, skip=rng.random() < 0.65)
+
+
+def products_cache(case):
+    """SensorCache with the raw solution sensors of every substream and the virtual sensors of every cal stream"""
+    N = case['N']
+    cache = {'Observation/target': CategoricalData([0], [0, N])}
+    for st in case['streams']:
+        npol, nant = len(st['pols']), len(st['ants'])
+        for sub, types in zip(st['substreams'], st['sub_types']):
+            for t in types:
+                if t == 'K':
+                    v = np.zeros((npol, nant))
+                elif t == 'B':
+                    v = np.full((st['n_chans'], npol, nant), 2, np.complex64)
+                else:
+                    v = np.full((npol, nant), 0.5, np.complex64)
+                cache['%s_product_%s' % (sub, t)] = raw_sensor([1.0], [v])
+    # virtual={} explicitly: the default argument of SensorCache is ONE shared dict (templates of earlier caches leak)
+    sc = SensorCache(cache, timestamps=np.arange(N, dtype=float), dump_period=1., props=SENSOR_PROPS, virtual={})
+    data_freqs = np.arange(case['F'], dtype=float) + 100.0
+    cal_freqs = {}
+    for st in case['streams']:
+        attrs = dict(antlist=st['ants'], pol_ordering=st['pols'])
+        if st['spectral']:
+            attrs.update(center_freq=101.0, bandwidth=float(st['n_chans']), n_chans=st['n_chans'])
+        f = add_applycal_sensors(sc, attrs, data_freqs, st['alias'], cal_substreams=st['substreams'], gaincal_flux=None)
+        if f is not None:
+            cal_freqs[st['alias']] = f
+    return sc, cal_freqs
+
+
+def wire_streams(streams):
+    return [[codes(st['alias']), [codes(a + p) for p in st['pols'] for a in st['ants']],
+             [[codes(t) for t in types] for types in st['sub_types']]]
+            for st in streams if st['spectral'] and st['ants'] and st['pols']]
+
+
+def spec_products(req, streams, inputs):
+    """documented rules end to end, independent of the Coq model: (list | 'ValueError' | 'KeyError')"""
+    reg = [st for st in streams if st['spectral'] and st['ants'] and st['pols']]
+    names = [st['alias'] for st in reg]
+    n = spec_normalise(req, names)
+    if n is None:
+        return 'ValueError', []
+    avail = {}
+    for st in reg:
+        have = [a + p for p in st['pols'] for a in st['ants']]
+        for t in TYPES:
+            if all(t in types for types in st['sub_types']):
+                avail[st['alias'] + '.' + t] = have
+    return spec_select(n[0], inputs, avail, n[1]), n[0]
+
+
+def parse_outcome(o):
+    return 'ValueError' if o[0] == 0 else 'KeyError' if o[0] == 1 else [''.join(chr(c) for c in s) for s in o[1]]
+
+
+def check_products(ctx, case):
+    """request -> _normalise_cal_products -> calc_correction on a SensorCache whose streams were registered by
+    add_applycal_sensors from raw solution sensors: which products are applied"""
+    req = case['request'] if isinstance(case['request'], str) else list(case['request'])
+    inputs = case['inputs']
+    with warnings.catch_warnings():
+        warnings.simplefilter('ignore')
+        sc, cal_freqs = products_cache(case)
+        try:
+            norm, skip = _normalise_cal_products(req, cal_freqs.keys())
+        except ValueError:
+            got = 'ValueError'
+        else:
+            got = run_calc_correction(sc, inputs, norm, cal_freqs, skip, nchan=case['F'], ndump=case['N'])[0]
+    mo = ctx.model([[141, [1, wire_req(req), wire_streams(case['streams']), [codes(i) for i in inputs]]]])[0]
+    mo, mspec = parse_outcome(mo[0]), parse_outcome(mo[1])
+    want, expanded = spec_products(req, case['streams'], inputs)
+    sig = products_signature(req, case['streams'], expanded, want)
+    if got != want or got != mspec:
+        ctx.disagree(sig + ';symptom=%s' % symptom(got, want), case, got, mo,
+                     'the products applied are not the documented expansion of the request with missing products '
+                     'skipped (wildcard requests) / rejected (fully qualified requests)',
+                     spec=want if got != want else mspec)
+    if got != mo:
+        ctx.disagree(sig + ';symptom=%s' % symptom(got, mo), case, got, mo,
+                     'the products applied differ from the model of _normalise_cal_products + calc_correction',
+                     kind='tie')
+    ctx.traces_validated += 1
+    ctx.note_case(('P1', repr(case)), nontrivial=isinstance(want, list) and 0 < len(want) < len(set(expanded)),
+                  sample=case if req in ('all', 'default') else None)
+    ctx.count('products:' + (want if isinstance(want, str) else 'applied'))
+    ctx.count('products:missing=' + (missing_shape(expanded, want) if isinstance(want, list) else 'n/a'))
+
+
+def symptom(got, want):
+    if isinstance(got, str) or isinstance(want, str):
+        return 'outcome_%s_instead_of_%s' % (got if isinstance(got, str) else 'list', want if isinstance(want, str) else 'list')
+    if set(got) < set(want):
+        return 'present_product_not_applied'
+    if set(got) > set(want):
+        return 'missing_product_applied'
+    return 'order_or_duplicates' if set(got) == set(want) else 'applied_list'
+
+
+def products_signature(req, streams, expanded, want):
+    names = [st['alias'] for st in streams if st['spectral'] and st['ants'] and st['pols']]
+    return 'kind=products;form=%s;missing=%s' % (
+        request_form(req if isinstance(req, str) else list(req), names),
+        missing_shape(expanded, want) if isinstance(want, list) else 'n/a')
+
+
+P_REQUESTS = ['all', 'default', 'l1', 'l2', 'l1,l2', 'l2,l1', 'K', 'B', 'G', 'GPHASE', 'GAMP_PHASE', 'K,B,G', 'G,B,K',
+              'K,B,G,GPHASE', 'GPHASE,G', 'l1.G', 'l1.K,l1.B,l1.G', 'l1.G,l2.GPHASE', 'l2.GPHASE,l1.G', 'l1.K,l1.G',
+              'l2.GAMP_PHASE', 'l1.K, G', 'G,l1.K', 'l1.B,l2', 'l2,l1.B', 'GPHASE,l1', 'l1.GPHASE,l1',
+              'l1.K,l1.B,l1.G,GPHASE', ['l1.B', 'G'], ['l2.GPHASE'], ['l1', 'GAMP_PHASE'], 'l3', 'l1.G,X', 'l3.G,l1',
+              'l1.G,l1.G', 'G,G', 'l1,l1.K', '']
+
+
+def gen_stream(rng, alias, ants, pols):
+    nsub = 1 if alias == 'l1' or rng.random() < 0.5 else 2
+    r = rng.random()
+    if alias == 'l1':
+        base = ['K', 'B', 'G'] if r < 0.4 else [t for t in TYPES if rng.random() < 0.55]
+    else:
+        base = ['GPHASE'] if r < 0.3 else ['GPHASE', 'GAMP_PHASE'] if r < 0.5 else [t for t in TYPES if rng.random() < 0.4]
+    sub_types = [list(base) for _ in range(nsub)]
+    if nsub == 2 and rng.random() < 0.4 and base:
+        sub_types[rng.randrange(2)].remove(rng.choice(base))        # one substream lacks a product
+    my_ants = list(ants)
+    if rng.random() < 0.2 and len(my_ants) > 1:
+        my_ants.pop(rng.randrange(len(my_ants)))                     # cal ran without one antenna
+    if rng.random() < 0.3:
+        rng.shuffle(my_ants)
+    my_pols = list(pols) if rng.random() < 0.7 else list(reversed(pols))
+    return dict(alias=alias, substreams=['cal'] if alias == 'l1' else ['img_%s_selfcal' % 'ab'[k] for k in range(nsub)],
+                sub_types=sub_types, ants=my_ants, pols=my_pols, n_chans=rng.choice([1, 2, 4]),
+                spectral=rng.random() < 0.93)
+
+
+def gen_products(rng):
+    ants = ['m000', 'm001', 'm002'][:rng.randint(1, 3)]
+    pols = ['v', 'h']
+    r = rng.random()
+    aliases = ['l1', 'l2'] if r < 0.6 else ['l1'] if r < 0.85 else ['l2'] if r < 0.95 else []
+    streams = [gen_stream(rng, a, ants, pols) for a in aliases]
+    data_ants = list(ants) if rng.random() < 0.8 else ants[:max(1, len(ants) - 1)]
+    inputs = sorted(a + p for a in data_ants for p in (pols if rng.random() < 0.8 else pols[:1]))
+    if rng.random() < 0.6:
+        req = rng.choice(P_REQUESTS)
+    else:
+        atoms = ['l1', 'l2', 'K', 'B', 'G', 'GPHASE', 'GAMP_PHASE'] + [s + '.' + t for s in ('l1', 'l2') for t in TYPES]
+        items = [rng.choice(atoms) for _ in range(rng.randint(1, 4))]
+        req = ','.join(items) if rng.random() < 0.6 else items
+    return dict(kind='products', request=req, streams=streams, inputs=inputs, N=rng.randint(2, 4), F=rng.choice([1, 2, 4]))
+
+
+# ------------------------------------------------------------------ (O) whole data sets opened with applycal=...
+
+def wire_tel(tel):
+    return [[codes(st['name']), codes(st['type'] or ''), [codes(t) for t in (st['targets'] or [])],
+             [codes(a + p) for p in st['pols'] for a in st['ants']], int(bool(st['spectral'])),
+             [codes(t) for t in st['types']]] for st in tel]
+
+
+def spec_opened(req, tel, archived, inputs):
+    """documented behaviour of a data set, independent of the Coq model: L1 = first archived sdp.cal stream (else
+    'cal'), L2 = the <stream>_<target>_selfcal substreams of the first archived imager stream with targets"""
+    by = {st['name']: st for st in tel}
+    cals = [n for n in archived if n in by and by[n]['type'] == 'sdp.cal']
+    l1 = cals[0] if cals else 'cal'
+    imgs = [n for n in archived if n in by and by[n]['type'] == 'sdp.continuum_image' and by[n]['targets']]
+    l2 = ['%s_%s_selfcal' % (imgs[0], t) for t in by[imgs[0]]['targets']] if imgs else []
+    streams = []
+    for alias, attrs_of, subs in (('l1', l1, [l1]), ('l2', l2[0] if l2 else None, l2)):
+        st = by.get(attrs_of)
+        if st is not None and st['ants'] and st['pols'] and st['spectral']:
+            streams.append(dict(alias=alias, ants=st['ants'], pols=st['pols'], spectral=True,
+                                sub_types=[by[n]['types'] if n in by else [] for n in subs]))
+    return [st['alias'] for st in streams], spec_products(req, streams, inputs)
+
+
+def isolate_templates():
+    """Each `opened` case must be a function of ITS data set only (a replay runs it alone): drop applycal templates an
+    earlier data set may have left in the module-level VIRTUAL_SENSORS (finding C14-F1; a no-op on fixed code).  What
+    one data set does to another is the business of check_two_sets."""
+    import katdal.visdatav4 as vd
+    for k in [k for k in vd.VIRTUAL_SENSORS if k.startswith('Calibration/')]:
+        del vd.VIRTUAL_SENSORS[k]
+
+
+def l2_product_mismatch(ctx, case, d):
+    """the self-cal product sensors of the data set must hold the solutions of ALL targets' substreams, merged by time:
+    Calibration/Products/l2/<gain type> (raw samples) against merge_substreams of what the fixture stored"""
+    from fixtures.c14streams import solution_offset
+    reg, l2 = spec_streams(case['tel'], case['archived'])
+    if 'l2' not in reg:
+        return None
+    by = {st['name']: (k, st) for k, st in enumerate(case['tel'])}
+    for t in ('G', 'GPHASE', 'GAMP_PHASE'):
+        if not all(n in by and t in by[n][1]['types'] for n in l2):
+            continue
+        streams = [[[q(Fr(solution_offset(*by[n]))), [wire_opv((Fr(1, 2 ** (by[n][0] + 1)), Fr(0)))]]] for n in l2]
+        mo = streams[0] if len(streams) == 1 else ctx.model([[14, [7, streams]]])[0]
+        try:
+            sd = d.sensor.get('Calibration/Products/l2/' + t, extract=False).get()
+        except Exception as e:       # noqa: BLE001
+            return t, 'raises:' + type(e).__name__, mo
+        t0 = 1600000000.0 + 123.0
+        got = [[Fr((float(ts) - t0) / 2.0), complex(np.asarray(ComparableArrayWrapper.unwrap(v))[0, 0])]
+               for ts, v in zip(sd.timestamp, sd.value)]
+        if [g[0] for g in got] != [fq(m[0]) for m in mo] or not all(same(g[1], parse_opv(m[1][0])) for g, m in zip(got, mo)):
+            return t, [[str(g[0]), repr(g[1])] for g in got], mo
+    return None
+
+
+def l2_corrections_mismatch(ctx, case, d):
+    """self-cal corrections of a whole data set with several targets: Calibration/Corrections/l2/<gain type>/<inp> per
+    dump against the spec (per-target interpolation, no flux) fed with the product sensor katdal extracted (event
+    placement is C10) and the data set's own target sequence"""
+    reg, l2 = spec_streams(case['tel'], case['archived'])
+    if 'l2' not in reg:
+        return None
+    by = {st['name']: st for st in case['tel']}
+    first = by[l2[0]]
+    have = [a + p for p in first['pols'] for a in first['ants']]
+    inps = [a + p for a in case['ants'] for p in 'hv' if a + p in have]
+    if not inps:
+        return None
+    N = case['T']
+    per_dump = [int(x) for x in d.sensor['Observation/target_index']]
+    for t in ('GPHASE', 'GAMP_PHASE', 'G'):
+        if not all(n in by and t in by[n]['types'] for n in l2):
+            continue
+        prod = get_cal_product(d.sensor, 'l2', t)
+        events, sols = [], []
+        for e, v in cat_segments(prod):
+            events.append(e)
+            sols.append(None if v is INVALID_GAIN else [[str(Fr(float(np.asarray(v).ravel()[0].real))), '0']])
+        fcase = dict(measured=[], overrides=None, tdefs=[['other']], per_dump=[0] * N)
+        w = wire_flux(fcase, sols, events)
+        sp = ctx.model([[142, [11, codes(t), N] + w[1][1:] + [per_dump]]])[0]
+        sp = [[parse_opv(e) for e in row] for row in sp[0]]
+        try:
+            out = np.asarray(d.sensor['Calibration/Corrections/l2/%s/%s' % (t, inps[0])])
+        except Exception as e:       # noqa: BLE001
+            return t, 'raises', 'raises:' + type(e).__name__, sp
+        g = dict(N=N, events=events, sols=sols, targets=per_dump if t != 'G' else None)
+        ctx.traces_validated += 1
+        ctx.count('opened:l2_correction_checked')
+        ctx.count('opened:l2_correction:targets=%d,solutions=%d,invalid_dumps=%s' % (
+            len(set(per_dump)), sum(1 for x in sols if x is not None),
+            'some' if any(r[0] is None for r in sp) and any(r[0] is not None for r in sp) else
+            'all' if all(r[0] is None for r in sp) else 'none'))
+        pos, sym = gain_symptom(g, out, sp)
+        if sym:
+            return t, '%s@%s' % (sym, pos), show(out), show_m(itertools.chain(*sp))
+    return None
+
+
+def spec_streams(tel, archived):
+    """(registered aliases, underlying L2 substreams) by the documented discovery rule"""
+    by = {st['name']: st for st in tel}
+    cals = [n for n in archived if n in by and by[n]['type'] == 'sdp.cal']
+    l1 = cals[0] if cals else 'cal'
+    imgs = [n for n in archived if n in by and by[n]['type'] == 'sdp.continuum_image' and by[n]['targets']]
+    l2 = ['%s_%s_selfcal' % (imgs[0], t) for t in by[imgs[0]]['targets']] if imgs else []
+    reg = []
+    for alias, attrs_of in (('l1', l1), ('l2', l2[0] if l2 else None)):
+        st = by.get(attrs_of)
+        if st is not None and st['ants'] and st['pols'] and st['spectral']:
+            reg.append(alias)
+    return reg, l2
+
+
+V4_TARGETS = {'A': 'A, radec bpcal, 19:39:25.03, -63:42:45.6', 'B': 'B, radec gaincal, 10:00:00.0, -30:00:00.0',
+              'Cee': 'C | Cee, radec target, 05:00:00.0, -20:00:00.0'}
+
+
+def build_opened(case):
+    from fixtures import v4
+    from fixtures.c14streams import streams_hook
+    seq = case.get('target_seq') or [[0, 'A']]
+    return v4.build_v4(T=case['T'], F=case['F'], ants=tuple(case['ants']), telstate_hook=streams_hook(case['tel']),
+                       targets=tuple((dd, V4_TARGETS[n]) for dd, n in seq), archived_override=case['archived'],
+                       construct=False, tmp=v4.scratch_dir('c14'))
+
+
+def check_opened(ctx, case, v=None):
+    """katdal's VisibilityDataV4(applycal=request) on a synthetic telstate: stream discovery, registration, name
+    expansion and skipping / rejecting of missing products, observed at d.applycal_products"""
+    from fixtures import v4
+    from fixtures.c14streams import streams_hook
+    req = case['request'] if isinstance(case['request'], str) else list(case['request'])
+    own = v is None
+    if own:
+        v = build_opened(case)
+    isolate_templates()
+    raw_bad = corr_bad = None
+    try:
+        if case.get('raw'):
+            # on a data set opened without applycal: nothing has been extracted yet, the raw product is still there
+            d0 = v4.reopen(v, open_kwargs=dict(applycal=''))
+            raw_bad = l2_product_mismatch(ctx, case, d0)
+            corr_bad = l2_corrections_mismatch(ctx, case, d0)
+            isolate_templates()
+        try:
+            d = v4.reopen(v, open_kwargs=dict(applycal=req))
+            got = list(d.applycal_products)
+        except ValueError:
+            got = 'ValueError'
+        except KeyError:
+            got = 'KeyError'
+        except Exception as e:       # noqa: BLE001
+            got = 'raises:' + type(e).__name__
+    finally:
+        if own:
+            v4.cleanup(v)
+    inputs = sorted(a + p for a in case['ants'] for p in 'hv')
+    mo = ctx.model([[141, [3, wire_req(req), wire_tel(case['tel']), [codes(n) for n in case['archived']],
+                           [codes(i) for i in inputs]]]])[0]
+    mreg = [''.join(chr(c) for c in s) for s in mo[0]]
+    mo, mspec = parse_outcome(mo[1]), parse_outcome(mo[2])
+    sreg, (want, expanded) = spec_opened(req, case['tel'], case['archived'], inputs)
+    form = request_form(req, sreg)
+    sig = 'kind=opened;form=%s;streams=%s;missing=%s' % (form, '+'.join(sreg) or 'none', missing_shape(expanded, want)
+                                                         if isinstance(want, list) else 'n/a')
+    if got != want or got != mspec:
+        ctx.disagree(sig + ';symptom=%s' % symptom(got, want), case, got, mo,
+                     'applycal_products of the opened data set are not the documented expansion of the request over '
+                     'the L1 / L2 streams of the data set with missing products skipped / rejected',
+                     spec=want if got != want else mspec)
+    if raw_bad:
+        ctx.disagree('kind=opened;streams=%s;product=l2.%s;symptom=selfcal_solutions_of_all_targets' % (
+            '+'.join(sreg) or 'none', raw_bad[0]), case, raw_bad[1], raw_bad[2],
+            'the self-cal product of the data set is not the time-ordered union of the solutions of every target')
+    if corr_bad:
+        ctx.disagree('kind=opened;streams=%s;correction=l2.%s;symptom=%s' % ('+'.join(sreg) or 'none', corr_bad[0],
+                                                                             corr_bad[1]), case, corr_bad[2], corr_bad[3],
+                     'the self-cal correction of the data set is not the per-target interpolation of the solutions '
+                     'derived on the target of each dump', spec=corr_bad[3])
+    if got != mo or mreg != sreg:
+        ctx.disagree(sig + ';symptom=%s' % (symptom(got, mo) if got != mo else 'registered_streams'), case, got,
+                     [mreg, mo], 'applycal_products differ from the model of _register_standard_cal_streams + '
+                     '_normalise_cal_products + calc_correction', kind='tie')
+    ctx.traces_validated += 1
+    ctx.note_case(('O', repr(case)), nontrivial=isinstance(want, list) and 0 < len(want) < len(set(expanded)),
+                  sample=case if req == 'all' and len(case['tel']) <= 2 else None)
+    ctx.count('opened:' + (want if isinstance(want, str) else 'applied'))
+    ctx.count('opened:streams=' + ('+'.join(sreg) or 'none'))
+
+
+def gen_tel(rng):
+    ants = ['m000', 'm001', 'm002'][:rng.randint(1, 2)]
+    T = 6
+    focus = rng.random() < 0.4            # a well-formed self-cal data set with several targets
+    starts = [0] + sorted(rng.sample(range(1, T), rng.randint(1, 3) if focus else rng.randint(0, 3)))
+    names = ['A', 'B', 'Cee']
+    target_seq = []
+    for dd in starts:
+        target_seq.append([dd, rng.choice([n for n in names if not target_seq or n != target_seq[-1][1]])])
+    on = {n: [d for d in range(T) if [x for dd, x in target_seq if dd <= d][-1] == n] for n in names}
+
+    def attrs(kind):
+        my_ants = list(ants)
+        r = rng.random()
+        if focus:
+            pass
+        elif r < 0.1:
+            my_ants = []
+        elif r < 0.25 and len(my_ants) > 1:
+            my_ants.pop(rng.randrange(len(my_ants)))
+        if kind == 'cal':
+            types = ['K', 'B', 'G'] if rng.random() < 0.4 else [t for t in TYPES if rng.random() < 0.5]
+        elif focus:
+            types = ['GPHASE'] if rng.random() < 0.5 else ['GPHASE', 'GAMP_PHASE']
+        else:
+            types = ['GPHASE'] if rng.random() < 0.4 else [t for t in TYPES if rng.random() < 0.4]
+        return dict(ants=my_ants, pols=['v', 'h'] if rng.random() < 0.8 else ['h', 'v'],
+                    spectral=focus or rng.random() < 0.9, n_chans=rng.choice([1, 2]), types=types)
+    tel, archived = [], ['sdp_l0']
+    for name in rng.sample(['cal', 'cal2', 'calx'], rng.randint(0, 2)):
+        tel.append(dict(name=name, type='sdp.cal' if rng.random() < 0.85 else rng.choice([None, 'sdp.beamformer_engineering']),
+                        targets=None, **attrs('cal')))
+        if rng.random() < 0.85:
+            archived.append(name)
+    for name in rng.sample(['continuum_image', 'img2'], 1 if focus else rng.choice([0, 1, 1, 2])):
+        targets = rng.sample(names, rng.choice([2, 3]) if focus else rng.choice([0, 1, 1, 2, 2]))
+        tel.append(dict(name=name, type='sdp.continuum_image' if focus or rng.random() < 0.9 else 'sdp.spectral_image',
+                        targets=targets, targets_in_cb=rng.random() < 0.7, ants=[], pols=[], spectral=False,
+                        n_chans=1, types=[]))
+        shared = attrs('selfcal')          # self-cal runs on the same antennas / channels for every target
+        for t in targets:
+            if focus or rng.random() < 0.9:
+                mine = attrs('selfcal')
+                # the solution of this target's substream is derived while the target is observed (mostly)
+                sol_dump = rng.choice(on[t]) if on[t] and rng.random() < 0.85 else rng.randrange(T)
+                tel.append(dict(name='%s_%s_selfcal' % (name, t), type=None, targets=None, sol_dump=sol_dump,
+                                **dict(shared, types=shared['types'] if focus or rng.random() < 0.5 else mine['types'])))
+        if focus or rng.random() < 0.9:
+            archived.append(name)
+    if rng.random() < 0.2:
+        archived.append('ghost')
+    rng.shuffle(archived)
+    return dict(tel=tel, archived=archived, ants=ants, T=T, F=2, target_seq=target_seq)
+
+
+def opened_requests(rng, n):
+    atoms = ['l1', 'l2', 'K', 'B', 'G', 'GPHASE', 'GAMP_PHASE'] + [s + '.' + t for s in ('l1', 'l2') for t in TYPES]
+    out = ['all']
+    while len(out) < n:
+        if rng.random() < 0.6:
+            out.append(rng.choice(P_REQUESTS))
+        else:
+            items = [rng.choice(atoms) for _ in range(rng.randint(1, 3))]
+            out.append(','.join(items) if rng.random() < 0.6 else items)
+    return out
+
+
+def run_opened(ctx, rng, n_sets, n_req):
+    from fixtures import v4
+    from fixtures.c14streams import streams_hook
+    for _ in range(n_sets):
+        base = gen_tel(rng)
+        v = build_opened(base)
+        try:
+            for k, req in enumerate(opened_requests(rng, n_req)):
+                check_opened(ctx, dict(base, kind='opened', request=req, raw=(k == 0)), v)
+        finally:
+            v4.cleanup(v)
+
+
+# ------------------------------------------------------------------ (T) several data sets open in one process
+
+GTARGET = '%s, radec gaincal, 10:00:00.0, -30:00:00.0'
+
+
+def check_two_sets(ctx, case):
+    """Data sets opened one after the other and all kept open: each must behave as if it were alone — its
+    applycal_products, and its (lazily evaluated) L1 gain correction scaled by ITS OWN flux table / override."""
+    from fixtures import v4
+    from fixtures.c14streams import streams_hook
+    isolate_templates()
+    opened = []
+    try:
+        for cfg in case['sets']:
+            def hook(ts, cbid, stream, cfg=cfg):
+                streams_hook(cfg['tel'])(ts, cbid, stream)
+                if cfg['measured'] is not None:
+                    ts.view('cal')['measured_flux'] = {n: flux_float(None if f is None else Fr(f)) for n, f in cfg['measured']}
+            v = v4.build_v4(T=cfg['T'], F=cfg['F'], ants=tuple(cfg['ants']), telstate_hook=hook,
+                            targets=((0, GTARGET % cfg['target']),), archived_override=cfg['archived'],
+                            construct=False, tmp=v4.scratch_dir('c14'))
+            kw = dict(applycal=cfg['request'])
+            if cfg['overrides'] is None:
+                kw['gaincal_flux'] = None
+            else:
+                kw['gaincal_flux'] = {n: flux_float(None if f is None else Fr(f)) for n, f in cfg['overrides']}
+            try:
+                d = v4.reopen(v, open_kwargs=kw)
+                got = list(d.applycal_products)
+            except ValueError:
+                d, got = None, 'ValueError'
+            except KeyError:
+                d, got = None, 'KeyError'
+            except Exception as e:       # noqa: BLE001
+                d, got = None, 'raises:' + type(e).__name__
+            opened.append((cfg, v, d, got))
+        for k, (cfg, v, d, got) in enumerate(opened):
+            which = 'first' if k == 0 else 'later'
+            inputs = sorted(a + p for a in cfg['ants'] for p in 'hv')
+            mo = ctx.model([[141, [3, wire_req(cfg['request']), wire_tel(cfg['tel']), [codes(n) for n in cfg['archived']],
+                                   [codes(i) for i in inputs]]]])[0]
+            mo = parse_outcome(mo[1])
+            if got != mo:
+                ctx.disagree('kind=two_sets;observed=%s;symptom=applied_products' % which, case, got, mo,
+                             'applycal_products of a data set depend on another data set opened in the same process')
+            if d is None:
+                continue
+            l1 = [st for st in cfg['tel'] if st['name'] == 'cal'][0]
+            inp = cfg['probe']
+            # the model of THIS data set: one solution 1/2 e^{0}, flux calibrated, interpolated, inverted
+            fcase = dict(measured=cfg['measured'] or [], overrides=cfg['overrides'], tdefs=[[cfg['target']]],
+                         per_dump=[0] * cfg['T'])
+            sols = [[['1/2', '0']]]
+            fm = ctx.model([wire_flux(fcase, sols, [0])])[0]
+            wsols = [None if not m[1] else [None if not e else [str(fq(e[0][0])), str(fq(e[0][1]))] for e in m[1][0]]
+                     for m in fm]
+            gm = ctx.model([[14, [24, cfg['T'], wire_sols(wsols, [0]), []]]])[0]
+            gm = [[parse_opv(e) for e in row] for row in gm]
+            try:
+                out = np.asarray(d.sensor['Calibration/Corrections/l1/G/' + inp])
+            except Exception as e:       # noqa: BLE001
+                out = None
+                err = repr(e)[:200]
+            if out is None or out.shape != (cfg['T'], 1) or not all(same(out[t, 0], gm[t][0]) for t in range(cfg['T'])):
+                ctx.disagree('kind=two_sets;observed=%s;symptom=%s' % (which, 'raises' if out is None else 'flux_scale'),
+                             case, err if out is None else show(out), show_m(itertools.chain(*gm)),
+                             'the L1 gain correction of a data set is not scaled by 1/sqrt(flux) from ITS OWN flux '
+                             'table / override once another data set has been opened in the same process')
+            ctx.traces_validated += 1
+    finally:
+        for _, v, _, _ in opened:
+            v4.cleanup(v)
+    ctx.note_case(('T', repr(case)), nontrivial=len(case['sets']) >= 2, sample=None)
+    ctx.count('two_sets')
+
+
+def gen_two_sets(rng):
+    sets = []
+    for k in range(rng.choice([2, 2, 3])):
+        ants = ['m000', 'm001'][:rng.randint(1, 2)]
+        target = rng.choice(NAMES[:2])
+        fl = [f for f in FLUXES if f is not None and f > 0 and f != 1]
+        measured = None if rng.random() < 0.25 else [[target, str(rng.choice(fl))]]
+        r = rng.random()
+        # an override may name this data set's calibrator, ANOTHER calibrator (then the measured flux still counts) or both
+        other = rng.choice([n for n in NAMES if n != target])
+        overrides = (None if r < 0.3 else [] if r < 0.55 else [[target, str(rng.choice(fl))]] if r < 0.7 else
+                     [[other, str(rng.choice(fl))]] if r < 0.9 else
+                     [[other, str(rng.choice(fl))], [target, str(rng.choice(fl))]])
+        tel = [dict(name='cal', type='sdp.cal', targets=None, ants=list(ants), pols=['v', 'h'], spectral=True,
+                    n_chans=rng.choice([1, 2]), types=['K', 'B', 'G'] if rng.random() < 0.7 else ['G'])]
+        sets.append(dict(tel=tel, archived=['sdp_l0', 'cal'], ants=ants, T=3, F=2, target=target, measured=measured,
+                         overrides=overrides, probe=rng.choice(ants) + rng.choice('hv'),
+                         request=rng.choice(['', '', 'l1.K', 'K', 'B']) if k == 0 else rng.choice(['', 'all', 'l1', 'G', 'l1.G'])))
+    return dict(kind='two_sets', sets=sets)
+
+
+# ------------------------------------------------------------------ (D) what calc_correction DELIVERS per data channel
+
+TOL_DELIVERED = 16 * 2.0 ** -23      # a product of two complex64 corrections (each within TOL of its exact value)
+
+
+def same_tol(z, mv, tol):
+    z = complex(z)
+    if mv is None:
+        return math.isnan(z.real) and math.isnan(z.imag)
+    if math.isnan(z.real) or math.isnan(z.imag):
+        return False
+    e = to_c(mv[0], mv[1])
+    return abs(z - e) <= tol * abs(e)
+
+
+def cal_grid(cal):
+    """SpectralWindow.channel_freqs: centre + bandwidth * (k - n // 2) / n"""
+    n, w, c = cal['n_chans'], Fr(cal['width']), Fr(cal['centre'])
+    return [c + w * (k - n // 2) for k in range(n)]
+
+
+def check_delivered(ctx, case):
+    """K / B solutions -> add_applycal_sensors -> calc_correction: the correction array per dump, DATA channel and
+    correlation product against the model (channel map + g1 conj g2) and the spec (the rule at the data channel's own
+    frequency), for cal channelisations equal to / offset from / narrower / coarser than / of another size than the data's"""
+    from katdal.applycal import calc_correction
+    ptype, N = case['ptype'], case['N']
+    ants, pols = case['ants'], case['pols']
+    dtype = np.dtype(case['dtype'])
+    cal = case['cal']
+    cf = cal_grid(cal)
+    df = [Fr(f) for f in case['data_freqs']]
+    inputs = sorted(a + p for a in ants for p in pols)
+    index = {a + p: (pi, ai) for pi, p in enumerate(pols) for ai, a in enumerate(ants)}
+    ts, vals = [], []
+    for dump, sol in case['sols']:
+        ts.append(float(dump))
+        if ptype == 'K':
+            a = np.zeros((len(pols), len(ants)))
+            for inp, d in sol.items():
+                a[index[inp]] = np.nan if d is None else float(Fr(d))
+        else:
+            a = np.ones((cal['n_chans'], len(pols), len(ants)), dtype=dtype)
+            for inp, bp in sol.items():
+                a[(slice(None),) + index[inp]] = c_array([None if v is None else (Fr(v[0]), Fr(v[1])) for v in bp], dtype)
+        vals.append(a)
+    cache = {'Observation/target': CategoricalData([0], [0, N]), 'cal_product_' + ptype: raw_sensor(ts, vals)}
+    sc = SensorCache(cache, timestamps=np.arange(N, dtype=float), dump_period=1., props=SENSOR_PROPS, virtual={})
+    attrs = dict(antlist=ants, pol_ordering=pols, center_freq=float(Fr(cal['centre'])),
+                 bandwidth=float(Fr(cal['width']) * cal['n_chans']), n_chans=cal['n_chans'])
+    data_freqs = np.array([float(f) for f in df])
+    pairs = [tuple(pr) for pr in case['pairs']]
+    corrprods = [(inputs[a], inputs[b]) for a, b in pairs]
+    # every input must take part (calc_correction only looks at the inputs of the corrprods)
+    chunks = ((N,), (len(df),), (len(corrprods),))
+    bad = None
+    with warnings.catch_warnings():
+        warnings.simplefilter('ignore')
+        cal_freqs = add_applycal_sensors(sc, attrs, data_freqs, 'cal', gaincal_flux=None)
+        if [Fr(float(f)) for f in cal_freqs] != cf:
+            bad = ('cal_freqs', [str(Fr(float(f))) for f in cal_freqs], [str(f) for f in cf], 'tie')
+        try:
+            final, corr = calc_correction(chunks, sc, corrprods, ['cal.' + ptype], data_freqs, {'cal': cal_freqs})
+            arr = corr.compute(scheduler='synchronous')
+            segs = cat_segments(get_cal_product(sc, 'cal', ptype))
+        except Exception as e:       # noqa: BLE001
+            bad = bad or ('raises:' + type(e).__name__, repr(e)[:200], None, 'property')
+    used = sorted({i for pr in pairs for i in pr})
+    rel = channelisation(cf, df)
+    if not bad:
+        table = {int(d): sol for d, sol in case['sols']}
+        bounds = [e for e, _ in segs] + [N]
+        for k, (e, _) in enumerate(segs):
+            sol = table[e] if e in table else table[min(table)]
+            if ptype == 'K':
+                payload = [[q(f) for f in df], [q(f) for f in cf],
+                           [[] if sol[inp] is None else [q(Fr(sol[inp]))] for inp in inputs]]
+                op = 1
+            else:
+                payload = [[q(f) for f in df], [q(f) for f in cf],
+                           [[wire_opv(None if v is None else (Fr(v[0]), Fr(v[1]))) for v in sol[inp]] for inp in inputs]]
+                op = 2
+            outs = ctx.model([[143, [op] + payload + [a, b]] for a, b in pairs])
+            for j, ((a, b), (mo, sp)) in enumerate(zip(pairs, outs)):
+                mo, sp = [parse_opv(x) for x in mo], [parse_opv(x) for x in sp]
+                for dump in range(bounds[k], bounds[k + 1]):
+                    row = arr[dump, :, j]
+                    for ref, kind in ((sp, 'property'), (mo, 'tie')):
+                        wrong = [c for c in range(len(df)) if not same_tol(row[c], ref[c], TOL_DELIVERED)]
+                        if wrong and not bad:
+                            c = wrong[0]
+                            flip = (ref[c] is None) != bool(np.isnan(row[c]))
+                            bad = ('nan_structure' if flip else 'value', show(row), show_m(ref), kind)
+    if bad:
+        ctx.disagree('kind=delivered;type=%s;channels=%s;symptom=%s' % (ptype, rel, bad[0]), case, bad[1], bad[2],
+                     'the correction calc_correction delivers for a data channel is not the %s rule evaluated at that '
+                     "channel's own frequency" % ('exp(-2 pi i delay f)' if ptype == 'K' else
+                                                  'inverted interpolated bandpass'), kind=bad[3])
+    ctx.traces_validated += 1
+    ctx.note_case(('D', repr(case)), nontrivial=len(df) >= 2 and len(case['sols']) >= 1, sample=case if len(df) <= 2 else None)
+    ctx.count('delivered:' + ptype)
+    ctx.count('delivered:channels=' + rel)
+
+
+def channelisation(cf, df):
+    """how the cal channels relate to the data channels"""
+    if len(cf) != len(df):
+        return 'other_count'
+    if cf == df:
+        return 'equal'
+    if len(cf) == 1:
+        return 'same_count_single'
+    if all(abs(a - b) <= Fr(1, 1000) for a, b in zip(cf, df)):
+        return 'same_count_within_1mHz'
+    wc, wd = cf[1] - cf[0], df[1] - df[0]
+    return 'same_count_' + ('offset' if wc == wd else 'cal_narrower' if wc < wd else 'cal_coarser')
+
+
+def gen_delivered(rng):
+    ptype = rng.choice(['K', 'B'])
+    ants = ['m000', 'm001', 'm002'][:rng.randint(1, 3)]
+    pols = ['v', 'h'] if rng.random() < 0.7 else ['h', 'v']
+    n = rng.choice([1, 2, 3, 4, 4, 6, 8])
+    width = rng.choice([Fr(1), Fr(2), Fr(1, 2), Fr(4)])
+    centre = Fr(rng.choice([100, 856, 1284, 64]))
+    cal = dict(n_chans=n, width=str(width), centre=str(centre))
+    cf = cal_grid(cal)
+    r = rng.random()
+    if r < 0.15:
+        df = list(cf)
+    elif r < 0.3:
+        df = [f + rng.choice([Fr(1, 2), -Fr(1, 2), Fr(3), -Fr(5), Fr(1, 4)]) * width for f in cf]     # offset
+    elif r < 0.45:
+        df = [centre + 2 * width * (k - n // 2) for k in range(n)]             # cal narrower than the data band
+    elif r < 0.6:
+        df = [centre + width / 2 * (k - n // 2) + rng.choice([0, 1]) * width / 4 for k in range(n)]   # cal coarser
+    elif r < 0.68:
+        df = [f + Fr(1, 2048) for f in cf]                                     # within 1 mHz
+    else:
+        m = rng.choice([x for x in (1, 2, 3, 4, 5, 8, 12) if x != n])
+        w2 = rng.choice([width, width / 2, 2 * width])
+        df = [centre + rng.choice([0, 1, -3]) * width + w2 * (k - m // 2) for k in range(m)]
+    inputs = sorted(a + p for a in ants for p in pols)
+    N = rng.randint(2, 6)
+    dumps = sorted(rng.sample(range(N), rng.randint(1, min(2, N))))
+    sols = []
+    dtype, small = (np.complex64, True) if rng.random() < 0.7 else (np.complex128, rng.random() < 0.5)
+    for i, dump in enumerate(dumps):
+        sol = {}
+        for inp in inputs:
+            if ptype == 'K':
+                sol[inp] = None if rng.random() < 0.2 else str(Fr(rng.randint(-64, 64), rng.choice([64, 256])) + Fr(i, 1024))
+            else:
+                pat = nan_pattern(rng, n)
+                vv = gen_values(rng, n, small)
+                sol[inp] = [None if pat[c] else [str(vv[c][0]), str(vv[c][1])] for c in range(n)]
+        sols.append([dump, sol])
+    k = len(inputs)
+    pairs = [[a, b] for a in range(k) for b in range(a, k)]
+    rng.shuffle(pairs)
+    pairs = pairs[:rng.randint(1, 4)]
+    # every input has to be named by some corrprod (the others are not looked at by calc_correction): add autos
+    named = {i for pr in pairs for i in pr}
+    pairs += [[i, i] for i in range(k) if i not in named]
+    return dict(kind='delivered', ptype=ptype, ants=ants, pols=pols, cal=cal, data_freqs=[str(f) for f in df], N=N,
+                sols=sols, pairs=pairs, dtype=np.dtype(dtype).name)
+
+
 # ------------------------------------------------------------------ driver
 
 CHECKS = {'unwrap': lambda ctx, c: check_unwrap(ctx, [Fr(p) for p in c['phases']]), 'cinterp': check_cinterp,
           'delay': check_delay, 'bandpass': check_bandpass, 'gain': check_gain, 'flux': check_flux,
-          'stitch': check_stitch, 'e2e': check_end_to_end,
+          'stitch': check_stitch, 'e2e': check_end_to_end, 'select': check_select, 'products': check_products,
+          'opened': check_opened, 'two_sets': check_two_sets, 'delivered': check_delivered,
           'normalise': lambda ctx, c: check_normalise(ctx, c['request'] if isinstance(c['request'], str)
                                                       else list(c['request']), c['streams'])}
 
@@ -1011,30 +1848,53 @@ def run_case(ctx, case):
 
 
 def run(ctx):
+    import time
     rng = ctx.rng
     if not ctx.model_ok:
         return
-    for f in ctx.findings:
-        run_case(ctx, f['witness'])
-    for _ in range(ctx.scale(150, 2000)):
-        check_unwrap(ctx, gen_unwrap(rng))
-    for _ in range(ctx.scale(300, 5000)):
-        check_cinterp(ctx, gen_cinterp(rng))
-    for _ in range(ctx.scale(100, 1500)):
-        check_delay(ctx, gen_delay(rng))
-    for _ in range(ctx.scale(250, 4000)):
-        check_bandpass(ctx, gen_bandpass(rng))
-    for _ in range(ctx.scale(400, 7000)):
-        check_gain(ctx, gen_gain(rng))
-    for _ in range(ctx.scale(150, 2500)):
-        check_flux(ctx, gen_flux(rng))
-    for _ in range(ctx.scale(150, 2500)):
-        check_stitch(ctx, gen_stitch(rng))
-    for _ in range(ctx.scale(100, 1500)):
-        check_end_to_end(ctx, gen_end_to_end(rng))
-    for streams in STREAM_SETS:
-        for req in normalise_cases(ctx):
-            check_normalise(ctx, req, streams)
+    stage = {}
+
+    def timed(name, fn):
+        t = time.time()
+        fn()
+        stage[name] = round(time.time() - t, 1)
+
+    def many(n, check, gen):
+        for _ in range(n):
+            check(ctx, gen(rng))
+    timed('findings', lambda: [run_case(ctx, f['witness']) for f in ctx.findings])
+
+    def corpus():
+        import glob
+        import json
+        import os
+        cdir = os.path.join(os.path.dirname(os.path.dirname(os.path.dirname(os.path.abspath(__file__)))), 'corpus', 'C14')
+        for fn in sorted(glob.glob(os.path.join(cdir, '*.json'))):
+            run_case(ctx, json.load(open(fn))['case'])
+            ctx.count('corpus')
+    timed('corpus', corpus)
+    timed('unwrap', lambda: many(ctx.scale(150, 2000), check_unwrap, gen_unwrap))
+    timed('cinterp', lambda: many(ctx.scale(300, 5000), check_cinterp, gen_cinterp))
+    timed('delay', lambda: many(ctx.scale(100, 1500), check_delay, gen_delay))
+    timed('bandpass', lambda: many(ctx.scale(250, 4000), check_bandpass, gen_bandpass))
+    timed('gain', lambda: many(ctx.scale(400, 7000), check_gain, gen_gain))
+    timed('flux', lambda: many(ctx.scale(150, 2500), check_flux, gen_flux))
+    timed('stitch', lambda: many(ctx.scale(150, 2500), check_stitch, gen_stitch))
+    timed('e2e', lambda: many(ctx.scale(100, 1500), check_end_to_end, gen_end_to_end))
+    timed('delivered', lambda: many(ctx.scale(300, 4000), check_delivered, gen_delivered))
+    timed('select', lambda: many(ctx.scale(400, 6000), check_select, gen_select))
+    timed('products', lambda: many(ctx.scale(400, 6000), check_products, gen_products))
+    timed('opened', lambda: run_opened(ctx, rng, ctx.scale(40, 300), 6))
+    timed('two_sets', lambda: many(ctx.scale(20, 150), check_two_sets, gen_two_sets))
+
+    def normalise_all():
+        todo = [(req, streams) for streams in STREAM_SETS for req in normalise_cases(ctx)]
+        # one batched model call (a call per case costs a process start each)
+        outs = ctx.model([[14, [8, wire_req(req), [codes(x) for x in streams]]] for req, streams in todo])
+        for (req, streams), mo in zip(todo, outs):
+            check_normalise(ctx, req, streams, mo if mo else [])
+    timed('normalise', normalise_all)
+    ctx.extra['stage_seconds'] = stage
     ctx.extra['normalise_exhaustive_over'] = 'streams in {[], [l1], [l2], [l1,l2]} x %d request forms' % len(
         normalise_cases(ctx))
 
